@@ -90,6 +90,12 @@ def replay(ctx, plan, ops, label, doomed_at=None, doomed=None):
     try:
         w.clock.now = plan['env']['clock0']
         early = doomed is not None and doomed['op'] == 'bad_new'
+        at_restart = doomed is not None and doomed['op'] == 'bad_open'
+        restart_idx = max([i_ for i_, o in enumerate(ops) if o['op'] == 'restart'] or [-1])
+        if at_restart and restart_idx < 0:
+            res['doomed_out'] = 'not-applicable'
+            doomed = None
+            at_restart = False
         try:
             d.new(refused_first=doomed['kw'] if early else None)
         except Exception as e:   # the real new() after a refused one
@@ -99,7 +105,7 @@ def replay(ctx, plan, ops, label, doomed_at=None, doomed=None):
         if early:
             res['doomed_out'] = d.refused_new
         for i, op in enumerate(list(ops) + [None]):
-            if doomed is not None and not early and i == doomed_at:
+            if doomed is not None and not early and not at_restart and i == doomed_at:
                 plain = {k: v for k, v in doomed.items() if k not in ('expect', 'cause', 'valid_otherwise', 'category')}
                 ok_to_apply = M.valid(d.model, plain) if doomed.get('valid_otherwise') else not M.valid(d.model, plain)
                 if not ok_to_apply:
@@ -115,9 +121,16 @@ def replay(ctx, plan, ops, label, doomed_at=None, doomed=None):
             w.clock.now = op.get('t', w.clock.now)
             if op['op'] == 'restart':
                 try:
-                    d.restart(via=('reuse-decoy' if op.get('reuse') == 'decoy' else 'reuse') if op.get('reuse') else 'fp')
+                    if at_restart and i == restart_idx and res['doomed_out'] is None:
+                        d.refused_open = None
+                        d.restart(via='fp', refused_first=doomed)
+                        res['doomed_out'] = d.refused_open if d.refused_open is not None else 'not-applicable'
+                    else:
+                        d.restart(via=('reuse-decoy' if op.get('reuse') == 'decoy' else 'reuse') if op.get('reuse') else 'fp')
                     d.model.apply(op)
                 except Exception as e:
+                    if at_restart and res['doomed_out'] is None and getattr(d, 'refused_open', None) is not None:
+                        res['doomed_out'] = d.refused_open      # the damaged image was refused; the real one then was, too
                     res['refused_edit'] = (i, op, Outcome(False, e))
                     return res
                 continue
